@@ -109,6 +109,60 @@ let wstable () =
   scalars (fun cp -> if trim (coq_string (utf8 cp)) = EmptyString then out := Printf.sprintf "%X" cp :: !out);
   S.concat "," (List.rev !out)
 
+
+(* ---- client calls: `c21 CALL <Kind> k=v ...` -> the tokens the model's printers produce *)
+let uprint u = let h = ml_string u in
+  coq_string (S.sub h 0 8 ^ "-" ^ S.sub h 8 4 ^ "-" ^ S.sub h 12 4 ^ "-" ^ S.sub h 16 4 ^ "-" ^ S.sub h 20 12)
+let fields ws = List.filter_map (fun w -> match S.index_opt w '=' with
+    | Some i -> Some (S.sub w 0 i, S.sub w (i + 1) (S.length w - i - 1)) | None -> None) ws
+let fld f k = List.assoc k f
+let opt f v = if v = "-" then None else Some (f v)
+let hexu v = coq_string v
+let tokv v = coq_string (dec_tok v)
+let evv = function "any" -> EvAny | "exists" -> EvExists | "empty" -> EvEmpty | n -> EvExact (n_of_string n)
+let optsv f with_pk =
+  { co_event_id = opt hexu (fld f "id"); co_partition_key = (if with_pk then opt hexu (fld f "pk") else None);
+    co_expected = evv (fld f "ev"); co_timestamp = opt n_of_string (fld f "ts");
+    co_payload = tokv (fld f "payload"); co_metadata = tokv (fld f "meta") }
+let selv v = if S.length v > 3 && S.sub v 0 3 = "id:" then CPid (n_of_string (S.sub v 3 (S.length v - 3)))
+             else CPkey (hexu (S.sub v 4 (S.length v - 4)))
+let mapv v = if v = "-" then [] else
+    List.map (fun e -> match S.split_on_char ':' e with [a; b] -> (n_of_string a, n_of_string b) | _ -> failwith "map") (S.split_on_char ',' v)
+let cmd_name = function
+  | CESub -> "ESUB" | CEPSub -> "EPSUB" | CEAppend -> "EAPPEND" | CEMAppend -> "EMAPPEND" | CEScan -> "ESCAN"
+  | CEPScan -> "EPSCAN" | CEGet -> "EGET" | CESVer -> "ESVER" | CEPSeq -> "EPSEQ" | CEAck -> "EACK"
+let call kind rest =
+  let f = fields rest in
+  let on k = opt n_of_string (fld f k) in
+  let c = match kind with
+    | "EAppend" -> CallEAppend (tokv (fld f "sid"), tokv (fld f "name"), optsv f true)
+    | "EMAppend" ->
+      (* groups separated by ";" *)
+      let rec groups acc cur = function
+        | [] -> List.rev (List.rev cur :: acc)
+        | ";" :: r -> groups (List.rev cur :: acc) [] r
+        | w :: r -> groups acc (w :: cur) r in
+      (match groups [] [] rest with
+       | hd :: evs -> CallEMAppend (hexu (fld (fields hd) "pk"),
+                        List.map (fun g -> let f = fields g in { ce_stream = tokv (fld f "sid"); ce_name = tokv (fld f "name"); ce_opts = optsv (("pk", "-") :: f) false }) evs)
+       | [] -> failwith "emappend")
+    | "EGet" -> CallEGet (hexu (fld f "id"))
+    | "EPScan" -> CallEPScan (selv (fld f "sel"), n_of_string (fld f "start"), on "end", on "count")
+    | "EScan" -> CallEScan (tokv (fld f "sid"), opt hexu (fld f "pk"), n_of_string (fld f "start"), on "end", on "count")
+    | "EPSeq" -> CallEPSeq (selv (fld f "sel"))
+    | "ESVer" -> CallESVer (tokv (fld f "sid"), opt hexu (fld f "pk"))
+    | "ESub" -> CallESub (tokv (fld f "sid"), opt hexu (fld f "pk"), on "from", on "win")
+    | "ESubLatest" -> CallESubLatest (tokv (fld f "sid"))
+    | "EPSubId" -> CallEPSubId (n_of_string (fld f "p"), on "from", on "win")
+    | "EPSubKey" -> CallEPSubKey (hexu (fld f "u"), on "from", on "win")
+    | "EPSubAllLatest" -> CallEPSubAllLatest
+    | "EPSubAll" -> CallEPSubAll (mapv (fld f "m"), on "fallback", on "win")
+    | "EPSubSeqs" -> CallEPSubSeqs (mapv (fld f "m"), on "win")
+    | "EPSubText" -> CallEPSubText (tokv (fld f "sel"), n_of_string (fld f "from"), on "win")
+    | "EAck" -> CallEAck (hexu (fld f "id"), n_of_string (fld f "cursor"))
+    | _ -> failwith "call kind" in
+  S.concat " " (cmd_name (client_command c) :: List.map enc (client_tokens uprint c))
+
 let dispatch line =
   let body, orc = match S.index_opt line '|' with
     | Some i -> S.sub line 0 i, S.sub line (i + 1) (S.length line - i - 1)
@@ -117,6 +171,7 @@ let dispatch line =
   | ["c21"; "UPPERTABLE"] -> uppertable ()
   | ["c21"; "WSTABLE"] -> wstable ()
   | "c21" :: "UTF8" :: toks -> S.concat "," (List.map (fun t -> if utf8_valid (coq_string (dec_tok t)) then "1" else "0") toks)
+  | "c21" :: "CALL" :: kind :: rest -> call kind rest
   | "c21" :: "DEC" :: ns -> S.concat "," (List.map (fun t -> ml_string (dec (n_of_string t))) ns)
   | "c21" :: cmd :: toks ->
     (match command cmd with
